@@ -160,12 +160,15 @@ def solver_unit(sc, case, per_path, tier, K=None, tag=''):
         return res
     if K is None: K = 3 if tier == 'quick' else 25
     try:
+        if K == 0: raise StopIteration
         n, mism = solverkit.translation_validation(sc, case, paths, K=K)
         res['tv'] = {'functions': 1, 'points': n, 'mismatches': len(mism)}
         for m in mism[:3]: res['engine_errors'].append('translation validation %s: %s' % (base, m))
         pts = alg.sample_points(sc.symbols(), sc.all_hyps(case), 1, seed=core.SEED + 5, ranges=sc.ranges)
         res['vacuity']['witness_checks'] = len(pts)
         if not pts: res['engine_errors'].append('vacuity: no admissible point found for the precondition of %s' % base)
+    except StopIteration:
+        pass
     except Exception as e:
         res['engine_errors'].append('translation validation failed to run for %s: %s' % (base, str(e)[-400:]))
     for i, p in enumerate(paths):
